@@ -10,6 +10,7 @@
 mod corpus;
 mod items;
 mod report;
+mod tierd;
 mod tierl;
 mod tierp;
 
